@@ -6,7 +6,7 @@ from vf.core import Ctx
 
 
 def run(ctx: Ctx) -> None:
-    run_family(ctx, 'C03', 'c03', 250, 4000)
+    run_family(ctx, 'C03', 'c03', 400, 12000)
 
 
 def replay(ctx: Ctx, path: str) -> None:
